@@ -98,6 +98,39 @@ def audit_store(sim, res, where, blob_of=None):
     return bad, files, prime
 
 
+class failing_move:  # pylint: disable=invalid-name
+    '''the n-th shutil.move made by dawgie.db.util raises ENOSPC (the global shutil module is left alone)'''
+
+    def __init__(self, n):
+        self.n = n
+
+    def __enter__(self):
+        import errno  # pylint: disable=import-outside-toplevel
+        import dawgie.db.util as u  # pylint: disable=import-outside-toplevel
+
+        self.u, self.orig = u, u.shutil
+        calls = [0]
+        n = self.n
+
+        class Shim:  # pylint: disable=too-few-public-methods
+            def __getattr__(self, name):
+                return getattr(shutil, name)
+
+            @staticmethod
+            def move(src, dst, *a, **k):
+                calls[0] += 1
+                if calls[0] == n:
+                    raise OSError(errno.ENOSPC, 'No space left on device (injected by vf)')
+                return shutil.move(src, dst, *a, **k)
+
+        u.shutil = Shim()
+        return self
+
+    def __exit__(self, *exc):
+        self.u.shutil = self.orig
+        return False
+
+
 def run_history(sim, hseed, res, thorough=False):
     # pylint: disable=too-many-locals,too-many-branches,too-many-statements
     rng = random.Random(hseed)
@@ -128,7 +161,38 @@ def run_history(sim, hseed, res, thorough=False):
                         else:
                             contents[(svn, vn)] = dbsim.payload(rng, sim.next_uid('c07'))
                 op = ['update', tk, an, tg, run, [c['data'] if c['uid'] is None else c['uid'] for c in contents.values()]]
-                flags, order, _before = sim.update(schema, tk, an, tg, run, contents)
+                if rng.random() < 0.12:
+                    # the file system refuses one move (ENOSPC): the server survives, only this update fails
+                    fail_at = rng.randint(1, max(1, len(contents)))
+                    op[0] = f'update(move #{fail_at} fails)'
+                    try:
+                        with failing_move(fail_at):
+                            flags, order, _before = sim.update(schema, tk, an, tg, run, contents)
+                    except OSError as e:
+                        if 'injected' not in str(e):
+                            raise
+                        res.count('updates_interrupted_by_move_failure')
+                        trace.append(op)
+                        b2, files, prime = audit_store(sim, res, str(op))
+                        bad += b2
+                        # what the interrupted update managed to store is stored; the entries it managed to record
+                        # are followed from what the catalogue says now (the audit above vouches for them)
+                        live = set(files)
+                        stored |= live
+                        t = sim.tables()
+                        for svn, s2 in a['svs'].items():
+                            for vn in s2['vals']:
+                                q = (run, tg, schema.identity(tk, an, svn, vn))
+                                key = prime_key(sim, t, run, tg, q[2])
+                                if key is not None and key in prime:
+                                    keyblob[q] = prime[key]
+                                else:
+                                    keyblob.pop(q, None)
+                        if bad:
+                            break
+                        continue
+                else:
+                    flags, order, _before = sim.update(schema, tk, an, tg, run, contents)
                 res.count('updates_checked')
                 # write-order model of the novelty signal
                 want_flags = []
@@ -153,7 +217,7 @@ def run_history(sim, hseed, res, thorough=False):
             elif k < 0.88:
                 op = ['reopen']
                 sim.reopen()
-            elif k < 0.94 and live:
+            elif k < 0.94 and live and keyblob:
                 # remove one key, then purge: unreferenced blobs may go, referenced ones must stay
                 kk = rng.choice(sorted(keyblob, key=repr))
                 ident = kk[2]
@@ -355,6 +419,7 @@ def run_shard(spec):
         return res
     rng = random.Random(spec['seed'])
     n = 0
+    prefix = []
     while keep_going(res, spec) or n < 6:
         hseed = rng.getrandbits(48)
         bad, info = run_history(sim, hseed, res, thorough=spec['tier'] == 'thorough')
@@ -364,7 +429,10 @@ def run_shard(spec):
         if n <= 2:
             res.sample({'mode': 'history', 'history_seed': hseed, 'operations': info['trace'][:12]})
         for clause, detail in bad[:1]:
-            res.violation(clause, detail, {'mode': 'history', 'hseed': hseed, 'tier': spec['tier']}, mechanism='C07/' + clause)
+            # module-level state of the code under test (a cache, say) can leak from one history into the next:
+            # the witness names the earlier histories of this process too, the replay runs them first
+            res.violation(clause, detail, {'mode': 'history', 'hseed': hseed, 'tier': spec['tier'], 'earlier': list(prefix)}, mechanism='C07/' + clause)
+        prefix.append(hseed)
     return res
 
 
@@ -374,6 +442,11 @@ def replay(witness):
     sim = get_sim()
     if witness['mode'] == 'history':
         bad, _ = run_history(sim, witness['hseed'], res, thorough=witness.get('tier') == 'thorough')
+        if not bad and witness.get('earlier'):
+            # not reproducible on its own: with the histories that preceded it in the shard
+            for h in witness['earlier']:
+                run_history(sim, h, Result(), thorough=witness.get('tier') == 'thorough')
+            bad, _ = run_history(sim, witness['hseed'], res, thorough=witness.get('tier') == 'thorough')
     else:
         base = os.path.join(boot.scratch('c07crash'), 'base')
         prepare_root(sim, base)
